@@ -1,11 +1,7 @@
 (* C14 — a crash during deployment is repaired by recovery.
-
-   FULL STATEMENT (false of the code as it is, see C14_refuted_marker_leak):
-     for every deployment and every crash configuration allowed by program
-     order, after recovery: usage = sum of recorded workloads on every affected
-     node, no marker of the deployment remains, every instance is fully created
-     or absent (except the unlogged container).
-   This file contains only the property theorems. *)
+   This file contains only the property theorems.  (Model of create.go after the
+   repair of the order of the deferred clean-up; the defect is kept as
+   RecoverProofs.old_order_marker_leak and as a fixed finding.) *)
 From Coq Require Import List ZArith.
 From Verif Require Import Calcium.Recover Calcium.RecoverProofs.
 Import ListNotations.
@@ -13,29 +9,32 @@ Local Open Scope Z_scope.
 
 (* For every plan (any number of nodes and instances), every crash
    configuration g satisfying the program-order invariant [valid] (= every
-   crash point between two externally visible steps under every interleaving
-   of the instance goroutines), every node whose usage equalled the sum of its
-   recorded workloads before the deployment: after the handlers ran in log order
+   crash point between two externally visible steps - store write, plugin
+   write, engine call, log write / commit - under every interleaving of the
+   instance goroutines), every node whose usage equalled the sum of its recorded
+   workloads before the deployment: after the WAL handlers ran in log order
    - usage = sum of the recorded workloads,
    - every instance is recorded and running, or absent from store and engine,
      or is the container created right before the crash and not yet logged,
-   - the marker is gone, PROVIDED the crash did not fall between the WAL commit
-     of the node's create-processing entry and DeleteProcessing. *)
-Theorem C14_recovery_partial : forall g (before : list (Z * Z)),
+   - no in-progress marker of the deployment remains. *)
+Theorem C14_recovery : forall g (before : list (Z * Z)),
   valid g = true -> List.length before = List.length (per_node g) ->
   (forall p, In p before -> fst p = snd p) ->
   forall p nc, In (p, nc) (combine before (per_node g)) ->
   let ns := crash_node (fst p) (snd p) nc in
   let ns' := recover_node (wal_alloc_open g) ns in
-  usage_ok ns' = true /\ insts_ok ns ns' = true /\ (leak_window nc = false -> marker_ok ns' = true).
+  usage_ok ns' = true /\ insts_ok ns ns' = true /\ marker_ok ns' = true.
 Proof. exact recovery_ok. Qed.
-Print Assumptions C14_recovery_partial.
+Print Assumptions C14_recovery.
 
-(* the marker clause is false in that window: the deferred functions of
-   doCreateWorkloads commit the create-processing WAL entries BEFORE the markers
-   are deleted; a crash in between leaves a marker nothing will ever delete *)
-Theorem C14_refuted_marker_leak : exists g nc,
-  grun (gc_start [1%nat]) leak_calls = Some g /\ valid g = true /\ per_node g = [nc] /\
-  marker_ok (recover_node (wal_alloc_open g) (crash_node 0 0 nc)) = false.
-Proof. exact marker_leak. Qed.
-Print Assumptions C14_refuted_marker_leak.
+(* program order rules out the window in which a marker would leak *)
+Theorem C14_no_leak_window : forall g nc, valid g = true -> In nc (per_node g) -> leak_window nc = false.
+Proof. exact valid_no_leak_window. Qed.
+Print Assumptions C14_no_leak_window.
+
+(* every configuration reached by executing calls in program order (any
+   interleaving of instances) is a valid crash configuration *)
+Theorem C14_reachable_valid : forall plan cs g,
+  grun (gc_start plan) cs = Some g -> valid g = true.
+Proof. exact reachable_valid. Qed.
+Print Assumptions C14_reachable_valid.
